@@ -32,7 +32,7 @@ class Res(wiring.Component):
 
 
 def n_cases(tier):
-    return 300 if tier == "quick" else 5000
+    return 2000 if tier == "quick" else 30000
 
 
 def gen_case(rng, tier, idx):
